@@ -17,6 +17,7 @@ import (
 	"net"
 	"net/http"
 	"net/url"
+	"strings"
 	"sync"
 	"sync/atomic"
 	"time"
@@ -145,6 +146,33 @@ func (b *idBitmap) Release(id uint16) {
 			return
 		}
 	}
+}
+
+// dnsRequestQuestion extracts the question of a packed DNS request (nil if it
+// cannot be parsed; the reply is then matched by transaction id only, as before).
+func dnsRequestQuestion(data []byte) *dnsmessage.Question {
+	var m dnsmessage.Msg
+	if err := m.Unpack(data); err != nil || len(m.Question) == 0 {
+		return nil
+	}
+	return &m.Question[0]
+}
+
+// dnsResponseAnswersQuestion reports whether resp can be the answer to question q:
+// same name (case-insensitively), type and class. Transaction ids are chosen by
+// the clients and do collide, so a late or duplicated reply to an earlier query on
+// a reused socket (or a reused pipelined id), or an upstream answering a different
+// question, must not be accepted on the id alone.
+func dnsResponseAnswersQuestion(resp *dnsmessage.Msg, q *dnsmessage.Question) bool {
+	if q == nil || resp == nil {
+		return true
+	}
+	if len(resp.Question) == 0 {
+		// Some servers omit the question section on errors; never take records from such a reply.
+		return len(resp.Answer) == 0
+	}
+	rq := resp.Question[0]
+	return rq.Qtype == q.Qtype && rq.Qclass == q.Qclass && strings.EqualFold(rq.Name, q.Name)
 }
 
 type DnsForwarder interface {
@@ -1110,6 +1138,7 @@ func (d *DoUDP) ForwardDNS(ctx context.Context, data []byte) (*dnsmessage.Msg, e
 	if len(data) >= 2 {
 		originalID = binary.BigEndian.Uint16(data[0:2])
 	}
+	reqQuestion := dnsRequestQuestion(data)
 
 	// Send DNS request directly without creating goroutine
 	if _, err = netutils.WriteUDPConn(conn, d.dialArgument.bestTarget.String(), data); err != nil {
@@ -1179,6 +1208,20 @@ func (d *DoUDP) ForwardDNS(ctx context.Context, data []byte) (*dnsmessage.Msg, e
 			udpPool.discard(conn)
 			badConn = true
 			return nil, err
+		}
+		if !dnsResponseAnswersQuestion(&msg, reqQuestion) {
+			// Same id, other question: a stale reply to an earlier borrower of this
+			// socket (or a confused upstream). Keep waiting for our own answer.
+			staleResponses++
+			if d.log != nil && d.log.IsLevelEnabled(logrus.DebugLevel) {
+				d.log.Debugf("discard UDP DNS response with id %d that answers another question", responseID)
+			}
+			if staleResponses > maxStaleResponses {
+				udpPool.discard(conn)
+				badConn = true
+				return nil, fmt.Errorf("too many stale UDP DNS responses")
+			}
+			continue
 		}
 		if msg.Truncated {
 			return &msg, ErrDNSTruncated
@@ -1435,6 +1478,12 @@ func (pc *pipelinedConn) RoundTrip(ctx context.Context, data []byte) (*dnsmessag
 			pc.Close()
 		}
 		return nil, err
+	}
+	if !dnsResponseAnswersQuestion(msg, dnsRequestQuestion(data)) {
+		// A duplicated or late reply under a reused pipelined id (or a confused
+		// upstream): the pipeline can no longer be trusted, recycle the connection.
+		pc.Close()
+		return nil, fmt.Errorf("dns response does not answer the question that was asked")
 	}
 
 	return msg, nil
